@@ -245,6 +245,63 @@ def run(tier: str, seed: int) -> int:
                            {"subseed": x["sub"]})
                 break
 
+    # ---- compilation is a function of the text ALONE: not of what this process compiled before, and it never touches a
+    # story it returned earlier.  A pool of stories recombined from one vocabulary of lines (the same line occurs tagged in
+    # one story and untagged in another, the same inline conditional / expression / choice in several passages and stories):
+    # each is first compiled ALONE in a fresh interpreter (baseline), then all are compiled in one process, in two orders;
+    # every result must equal its baseline and every earlier result must still equal it after the later compilations.
+    VOC = ["You are {hp > 3 ? strong | weak}", "The door is {locked ? locked | open}.", "Gold: {gold}", "Plain text line",
+           "{hp > 3 ? strong | weak}", "A {x ? {y ? deep | mid} | flat} end", "Total {gold:>4} coins"]
+    TAGS = ["", "", " ^mood", " ^mood:dark ^big", " ^x"]
+    pool = []
+    rp = random.Random(rng.randrange(10 ** 9))
+    for k in range(10 if tier == "quick" else 40):
+        ls = [":: Start", "~ hp = 5", "~ locked = True", "~ gold = 7", "~ x = 1", "~ y = 0"]
+        for _ in range(rp.randint(3, 6)):
+            ls.append(rp.choice(VOC) + rp.choice(TAGS))
+        ls.append("@if hp > 3:")
+        ls.append("    " + rp.choice(VOC) + rp.choice(TAGS))
+        ls.append("@endif")
+        ls.append("+ [Go {hp > 3 ? on | back}] -> Next" + rp.choice(["", " ^c1"]))
+        ls += [":: Next", rp.choice(VOC) + rp.choice(TAGS), "+ [Back] -> Start"]
+        pool.append("\n".join(ls))
+    base = []
+    for src in pool:
+        pr = subprocess.run([sys.executable, "-c",
+                             "import sys, json; sys.path.insert(0, sys.argv[1]); import io, contextlib\n"
+                             "from bardic.compiler.compiler import BardCompiler\n"
+                             "with contextlib.redirect_stdout(io.StringIO()):\n"
+                             "    st = BardCompiler().compile_string(sys.stdin.read())\n"
+                             "print('RESULT' + json.dumps(st))", C.REPO], input=src, capture_output=True, text=True, timeout=120)
+        line = [l for l in pr.stdout.splitlines() if l.startswith("RESULT")]
+        base.append(json.loads(line[0][6:]) if line else None)
+    stats["compile_history_pool"] = len(pool)
+    for order in (list(range(len(pool))), list(reversed(range(len(pool))))):
+        got = {}
+        for j in order:
+            if base[j] is None:
+                continue
+            with C.quiet():
+                try:
+                    got[j] = BardCompiler().compile_string(pool[j])
+                except Exception as e:  # noqa
+                    got[j] = {"<raised>": type(e).__name__}
+            if json.loads(json.dumps(got[j])) != base[j]:
+                chk.report("compile-depends-on-earlier-compilations",
+                           "a story compiled after other stories in the same process differs from the same text compiled alone "
+                           "in a fresh interpreter", {"story_source": pool[j], "compiled_before": [pool[q] for q in order[:order.index(j)]][-3:]})
+                break
+            for q, st_q in got.items():
+                if json.loads(json.dumps(st_q)) != base[q]:
+                    chk.report("compile-changed-an-earlier-story",
+                               "compiling a story changed a story object that an earlier compilation had returned",
+                               {"story_source": pool[q], "changed_by_compiling": pool[j]})
+                    break
+            else:
+                chk.count(("compile-history", pool[j], tuple(order[:2])), True)
+                continue
+            break
+
     # ---- the aliasing model evaluated on real object graphs ----
     if cell_terms:
         hdr = HEADER
